@@ -370,21 +370,8 @@ func (vfs *OrefaFS) Link(oldname, newname string) error {
 		return &os.LinkError{Op: op, Old: oldname, New: newname, Err: vfs.err.NoSuchFile}
 	}
 
-	avfs.VerifBeforeLock(&oChild.mu, true)
-	oChild.mu.Lock()
-	defer oChild.mu.Unlock()
-
-	avfs.VerifBeforeLock(&nParent.mu, true)
-	nParent.mu.Lock()
-	defer nParent.mu.Unlock()
-
-	if oChild.mode.IsDir() {
-		err := error(avfs.ErrOpNotPermitted)
-		if vfs.OSType() == avfs.OsWindows {
-			err = avfs.ErrWinAccessDenied
-		}
-
-		return &os.LinkError{Op: op, Old: oldname, New: newname, Err: err}
+	if !nParent.mode.IsDir() {
+		return &os.LinkError{Op: op, Old: oldname, New: newname, Err: vfs.err.NotADirectory}
 	}
 
 	if nChildOk {
@@ -395,6 +382,24 @@ func (vfs *OrefaFS) Link(oldname, newname string) error {
 
 		return &os.LinkError{Op: op, Old: oldname, New: newname, Err: err}
 	}
+
+	// Directories can't be linked: past this point oChild is a file and differs from nParent.
+	if oChild.mode.IsDir() {
+		err := error(avfs.ErrOpNotPermitted)
+		if vfs.OSType() == avfs.OsWindows {
+			err = avfs.ErrWinAccessDenied
+		}
+
+		return &os.LinkError{Op: op, Old: oldname, New: newname, Err: err}
+	}
+
+	avfs.VerifBeforeLock(&oChild.mu, true)
+	oChild.mu.Lock()
+	defer oChild.mu.Unlock()
+
+	avfs.VerifBeforeLock(&nParent.mu, true)
+	nParent.mu.Lock()
+	defer nParent.mu.Unlock()
 
 	avfs.VerifBeforeLock(&vfs.mu, true)
 	vfs.mu.Lock()
